@@ -1,6 +1,7 @@
 (* C13 — Offset, earliest, latest and jitter mean what they say (statements only).
    [inner_answer E q dt n]: n is an answer of the underlying trigger q to a reference instant >= dt. *)
-From EAS Require Import Base Civil Time Filters Replace Producers ProdStrict ProdOps.
+From EAS Require Import Base Civil Time TimeOrder Filters Replace Producers ProdStrict ProdEarliest ProdEarliest2 ProdOps ProdOps2.
+From EASGen Require Import Generated.
 
 Theorem C13_offset_exact :
   forall E q off f st dt v st', wf_producer q -> get_next E (POffset q off f) st dt = (Ok v, st') ->
@@ -56,3 +57,109 @@ Theorem C13_jitter_window :
               ((0 <= lo \/ dt < n + lo) -> n + lo <= v <= n + hi) /\ (lo < 0 -> n + lo <= v).
 Proof. exact jitter_window. Qed.
 Print Assumptions C13_jitter_window.
+(* ---- additions from ProdOps2.v (add ProdEarliest ProdEarliest2 ProdOps2 TimeOrder to the Require line) ---- *)
+
+(* earliest: bound's wall-clock time exists exactly once on the occurrence's local day: result = max, the bound
+   lies on the SAME local day, and - no UTC-offset change between bound instant and occurrence - the occurrence is
+   unchanged iff its local time of day is not before the bound, otherwise the bound's instant *)
+Theorem C13_earliest_unchanged_within_bound :
+  forall z tr n dt e, wf_tr tr -> candidates z (local_day (to_local z n) * DAY + tr_tod tr) = [e] ->
+    apply_earliest z tr n dt = Ok (Z.max n e) /\
+    local_day (to_local z e) = local_day (to_local z n) /\ local_tod (to_local z e) = tr_tod tr /\
+    (offset_at z e = offset_at z n ->
+       (tr_tod tr <= local_tod (to_local z n) -> apply_earliest z tr n dt = Ok n) /\
+       (local_tod (to_local z n) < tr_tod tr -> apply_earliest z tr n dt = Ok e)).
+Proof. exact earliest_unchanged_within_bound. Qed.
+Print Assumptions C13_earliest_unchanged_within_bound.
+
+Theorem C13_latest_unchanged_within_bound :
+  forall z tr n dt e, wf_tr tr -> candidates z (local_day (to_local z n) * DAY + tr_tod tr) = [e] ->
+    apply_latest z tr n dt = Ok (Z.min n e) /\
+    local_day (to_local z e) = local_day (to_local z n) /\ local_tod (to_local z e) = tr_tod tr /\
+    (offset_at z e = offset_at z n ->
+       (local_tod (to_local z n) <= tr_tod tr -> apply_latest z tr n dt = Ok n) /\
+       (tr_tod tr < local_tod (to_local z n) -> apply_latest z tr n dt = Ok e)).
+Proof. exact latest_unchanged_within_bound. Qed.
+Print Assumptions C13_latest_unchanged_within_bound.
+
+(* every table, no offset hypothesis: same decision when the two times of day are more than the spread apart;
+   [bound_shown]: the selected bound instant shows the bound's time on the occurrence's day (exists once or repeated) *)
+Theorem C13_earliest_beyond_spread :
+  forall z tr n dt e, clamp_target z tr n dt = Ok (Some e) -> bound_shown z tr n e ->
+    (tr_tod tr + spread z * NS < local_tod (to_local z n) -> apply_earliest z tr n dt = Ok n) /\
+    (local_tod (to_local z n) + spread z * NS < tr_tod tr -> apply_earliest z tr n dt = Ok e).
+Proof. exact earliest_beyond_spread. Qed.
+Print Assumptions C13_earliest_beyond_spread.
+
+Theorem C13_latest_beyond_spread :
+  forall z tr n dt e, clamp_target z tr n dt = Ok (Some e) -> bound_shown z tr n e ->
+    (local_tod (to_local z n) + spread z * NS < tr_tod tr -> apply_latest z tr n dt = Ok n) /\
+    (tr_tod tr + spread z * NS < local_tod (to_local z n) -> apply_latest z tr n dt = Ok e).
+Proof. exact latest_beyond_spread. Qed.
+Print Assumptions C13_latest_beyond_spread.
+
+(* zones without transitions: the clause of the property text with no side condition at all *)
+Theorem C13_earliest_fixed_zone :
+  forall z tr n dt, tz_trans z = [] ->
+    apply_earliest z tr n dt =
+    Ok (if tr_tod tr <=? local_tod (to_local z n) then n
+        else local_day (to_local z n) * DAY + tr_tod tr - tz_init z * NS).
+Proof. exact earliest_fixed_zone. Qed.
+Print Assumptions C13_earliest_fixed_zone.
+
+Theorem C13_latest_fixed_zone :
+  forall z tr n dt, tz_trans z = [] ->
+    apply_latest z tr n dt =
+    Ok (if local_tod (to_local z n) <=? tr_tod tr then n
+        else local_day (to_local z n) * DAY + tr_tod tr - tz_init z * NS).
+Proof. exact latest_fixed_zone. Qed.
+Print Assumptions C13_latest_fixed_zone.
+
+(* never to another day *)
+Theorem C13_clamp_same_day :
+  forall z tr n e, wf_tr tr -> bound_shown z tr n e ->
+    local_day (to_local z e) = local_day (to_local z n) /\ local_tod (to_local z e) = tr_tod tr.
+Proof. exact clamp_same_day. Qed.
+Print Assumptions C13_clamp_same_day.
+
+Theorem C13_bound_shown_unless_skipped :
+  forall z tr n dt e, clamp_target z tr n dt = Ok (Some e) ->
+    candidates z (local_day (to_local z n) * DAY + tr_tod tr) <> [] -> bound_shown z tr n e.
+Proof. exact clamp_target_shown. Qed.
+Print Assumptions C13_bound_shown_unless_skipped.
+
+(* every policy incl. the substitutes for a skipped bound (earlier / later / after) *)
+Theorem C13_clamp_same_day_any_policy :
+  forall z tr n dt e, clamp_target z tr n dt = Ok (Some e) ->
+    spread z * NS <= tr_tod tr -> tr_tod tr + day_dev z < DAY ->
+    local_day (to_local z e) = local_day (to_local z n).
+Proof. exact clamp_same_day_any_policy. Qed.
+Print Assumptions C13_clamp_same_day_any_policy.
+
+(* never beyond the bound; the result is the occurrence or the bound instant *)
+Theorem C13_never_beyond_bound :
+  forall z tr n dt e, clamp_target z tr n dt = Ok (Some e) ->
+    (forall v, apply_earliest z tr n dt = Ok v -> e <= v /\ (v = n \/ v = e)) /\
+    (forall v, apply_latest z tr n dt = Ok v -> v <= e /\ (v = n \/ v = e)).
+Proof. exact never_beyond_bound. Qed.
+Print Assumptions C13_never_beyond_bound.
+
+(* jitter, negative lower bound: both branches exactly (completes C13_jitter_window) *)
+Theorem C13_jitter_shift_forward_window :
+  forall E q lo hi f st dt v st', wf_producer q -> draws_in_range E -> lo < hi -> lo < 0 ->
+    get_next E (PJitter q lo hi f) st dt = (Ok v, st') ->
+    exists n, inner_answer E q dt n /\ dt < v /\ allow_opt (pz E) f v = true /\
+      (dt < n + lo -> n + lo <= v <= n + hi) /\
+      (n + lo <= dt -> let diff := dt - n - lo + jitter_eps_ns in n + lo + diff <= v <= n + hi + diff).
+Proof. exact jitter_shift_forward_window. Qed.
+Print Assumptions C13_jitter_shift_forward_window.
+
+(* offset: from the firing n1 + off the next firing is n2 + off for the occurrence n2 FOLLOWING n1, provided no
+   occurrence lies in (n1, n1 + off] (vacuous for off < 0); q is any trigger whose answers are least occurrences *)
+Theorem C13_offset_next_complete :
+  forall E q (P : Z -> Prop),
+    (forall st x n st', get_next E q st x = (Ok n, st') -> earliest_after P x n) ->
+    forall off st n1 v st', (forall u, P u -> n1 < u -> n1 + off < u) ->
+      get_next E (POffset q off None) st (n1 + off) = (Ok v, st') -> earliest_after P n1 (v - off).
+Proof. exact offset_next_complete. Qed.
+Print Assumptions C13_offset_next_complete.
